@@ -150,6 +150,77 @@ pub fn run_c11(_prop: &str, _tier: Tier, run_seed: u64, ov: &Value) -> RunOut {
                 }
             }
         }
+        // nested listings: the same files fanned out over a few directories (several files
+        // per directory, optionally one file directly under the table root), under two
+        // mounts, listed in several orders — what a partitioned table directory looks like
+        let mut nr = rng.fork(0x4e57);
+        for (ti, t) in sc.world.tables.iter().enumerate() {
+            let files0 = &sc.world.nodes[0].files[ti].1;
+            if files0.len() < 3 {
+                continue;
+            }
+            out.bump("probe.nested_listing_tables");
+            let k = 2 + nr.usize(2.min(files0.len() - 2));
+            let root_file = nr.chance(1, 3);
+            let mounts = [crate::cluster::world::fresh_dir("c11nest-a"), crate::cluster::world::fresh_dir("c11nest-b").join("deeper").join("mount")];
+            let mut listings: Vec<Vec<PathBuf>> = Vec::new();
+            for m in &mounts {
+                let mut l = Vec::new();
+                for (i, f) in files0.iter().enumerate() {
+                    let d = if root_file && i == files0.len() - 1 { m.join(&t.name) } else { m.join(&t.name).join(format!("d={}", i % k)) };
+                    std::fs::create_dir_all(&d).expect("mkdir");
+                    let to = d.join(format!("part-{i:03}.parquet"));
+                    if std::fs::hard_link(f, &to).is_err() {
+                        std::fs::copy(f, &to).expect("copy");
+                    }
+                    l.push(to);
+                }
+                listings.push(l);
+            }
+            let n = 1 + nr.usize(8);
+            let key = |s: &query_engine::distributed::Split| (s.file.clone(), s.row_group, s.row_offset, s.num_rows, s.bytes);
+            let feats = vec!["layout:nested_dirs".to_string(), format!("root_file:{root_file}")];
+            if let Ok(reference) = enumerate_parquet(&t.name, &listings[0], n) {
+                let rel0: Vec<PathBuf> = reference.splits.iter().map(|s| s.path.strip_prefix(&mounts[0]).unwrap().to_path_buf()).collect();
+                for (mi, l) in listings.iter().enumerate() {
+                    for round in 0..6 {
+                        let mut perm = l.clone();
+                        nr.shuffle(&mut perm);
+                        if round == 0 {
+                            // two files of one directory at the two ends of the listing
+                            perm.sort();
+                            let last = perm.len() - 1;
+                            if let Some(j) = (1..perm.len()).find(|&j| perm[j].parent() == perm[0].parent()) {
+                                perm.swap(j, last);
+                            }
+                        }
+                        out.bump("n.nested_listing_orders");
+                        match enumerate_parquet(&t.name, &perm, n) {
+                            Ok(s2) => {
+                                let same_list = s2.splits.iter().map(key).collect::<Vec<_>>() == reference.splits.iter().map(key).collect::<Vec<_>>();
+                                let rel: Vec<PathBuf> = s2.splits.iter().map(|s| s.path.strip_prefix(&mounts[mi]).unwrap().to_path_buf()).collect();
+                                if s2.digest() != reference.digest() || !same_list {
+                                    viol.push(violation(if mi == 0 { "splits-order-independent" } else { "splits-mount-independent" }, "digest-depends-on-file-order", feats.clone(),
+                                        format!("table {} n={n}: digest {:#x} vs {:#x} for another listing order of the same nested files (mount {mi})", t.name, reference.digest(), s2.digest()),
+                                        json!({"table": t.name, "n": n, "listing": perm.iter().map(|p| p.strip_prefix(&mounts[mi]).unwrap().display().to_string()).collect::<Vec<_>>()})));
+                                    break;
+                                } else if rel != rel0 {
+                                    viol.push(violation("splits-order-independent", "equal-digest-different-files", feats.clone(),
+                                        format!("table {} n={n}: another listing order keeps the digest but maps splits to different files", t.name), json!({"table": t.name, "n": n})));
+                                    break;
+                                }
+                            }
+                            Err(e) => {
+                                viol.push(violation("splits-enumerate", "error", feats.clone(), format!("enumerate_parquet failed on a nested listing: {e}"), json!({"table": t.name, "n": n})));
+                                break;
+                            }
+                        }
+                    }
+                }
+            }
+            let _ = std::fs::remove_dir_all(&mounts[0]);
+            let _ = std::fs::remove_dir_all(mounts[1].parent().unwrap().parent().unwrap());
+        }
         sample = Some(json!({"world": sc.world.describe()}));
         viol
     });
